@@ -1,6 +1,7 @@
 (* C05 - Restriction fixes variables to constants and removes them from the inputs. *)
 From BBF Require Import Base.Prelude Base.Names Base.Bits Spec.Sem
      Model.Expr Model.Table Model.LibBdd Model.Bdd Proofs.ExprProofs Proofs.TableProofs Proofs.DdProofs Proofs.BddProofs Proofs.BddOps.
+From BBF Require Import Model.Lexer Model.Parser Model.Display Model.Render Model.Csv Model.Prog Proofs.ProgProofs Proofs.ConvChain Proofs.OpsObjects.
 
 Theorem C05_expr_sem : forall e rho v, sem v (e_restrict e rho) = sem (override v rho) e.
 Proof. exact sem_restrict. Qed.
@@ -49,3 +50,11 @@ Example C05_table_example :
   wf_table t /\
   t_restrict t [([98%N], true); ([122%N], false)] = {| t_inputs := [[97%N]; [99%N]]; t_outputs := [true; false; false; false] |}.
 Proof. split; [split; [repeat constructor|reflexivity]|reflexivity]. Qed.
+
+(* ---- an object of any representation: total, pointwise, inputs exactly the others ---- *)
+Theorem C05_objects : forall o rho, owf o ->
+  exists o', exec_restrict o rho = Ok o' /\ owf o' /\ obj_kind o' = obj_kind o /\
+             (forall v, osem o' v = osem o (override v rho)) /\
+             decl o' = set_diff (decl o) (keys rho).
+Proof. exact obj_restrict_spec. Qed.
+Print Assumptions C05_objects.
